@@ -10,6 +10,7 @@ TL_CFG = """CONSTANTS PV = %d
  FreshVm2 = %s
  FreshAttempt = %s
  Catchable = %s
+ Unpolled = %s
 SPECIFICATION Spec
 INVARIANT LateBound
 INVARIANT NeverCaught
@@ -32,17 +33,23 @@ def run(rep):
     # 1. the enforcement model: all nestings up to MaxNest, every position of the deadline relative to every counter
     grid = [(3, 2, 5, 4)] if quick else [(3, 2, 5, 4), (4, 3, 7, 5), (2, 2, 1, 4)]
     for pv, pr, d, nest in grid:
-        r = tlc.run(rep.pid, "TimeLimit", TL_CFG % (pv, pr, d, nest, "FALSE", "FALSE", "FALSE"), timeout=1200,
+        r = tlc.run(rep.pid, "TimeLimit", TL_CFG % (pv, pr, d, nest, "FALSE", "FALSE", "FALSE", "{}"), timeout=1200,
                     tag="tl_%d_%d_%d" % (pv, pr, d), coverage=True)
         rep.add_tlc("TimeLimit(PV=%d,PR=%d,D=%d,nest<=%d)" % (pv, pr, d, nest), r)
     # non-vacuity: each pre-fix behaviour must violate its invariant
     for dev, inv in (("FreshVm2", "LateBound"), ("FreshAttempt", "LateBound"), ("Catchable", "NeverCaught")):
         flags = {k: ("TRUE" if k == dev else "FALSE") for k in ("FreshVm2", "FreshAttempt", "Catchable")}
-        b = tlc.run(rep.pid, "TimeLimit", TL_CFG % (3, 2, 5, 4, flags["FreshVm2"], flags["FreshAttempt"], flags["Catchable"]),
+        b = tlc.run(rep.pid, "TimeLimit", TL_CFG % (3, 2, 5, 4, flags["FreshVm2"], flags["FreshAttempt"], flags["Catchable"], "{}"),
                     timeout=600, tag="tl_dev_" + dev)
         if inv not in b.violated:
             raise Machinery("TimeLimit: deviation %s does not violate %s (vacuous invariant)" % (dev, inv))
-    rep.notes["model_deviations_detected"] = ["FreshVm2", "FreshAttempt", "Catchable"]
+    # a "safepoint" interpreter that skips the limit check before one kind of control transfer: both the bound and
+    # termination must fail (this is why C01.tla has one keep-running construct per kind of transfer)
+    for kind in ("new", "method", "iter"):
+        b = tlc.run(rep.pid, "TimeLimit", TL_CFG % (3, 2, 5, 4, "FALSE", "FALSE", "FALSE", '{"%s"}' % kind), timeout=600, tag="tl_unpolled_" + kind)
+        if "LateBound" not in b.violated:
+            raise Machinery("TimeLimit: Unpolled={%s} does not violate LateBound (vacuous invariant)" % kind)
+    rep.notes["model_deviations_detected"] = ["FreshVm2", "FreshAttempt", "Catchable", "Unpolled={new}", "Unpolled={method}", "Unpolled={iter}"]
     # 2. enumerate cases
     en = tlc.run(rep.pid, "C01", ENUM_CFG, env={"TIER": rep.tier}, timeout=900, tag="enum")
     rep.add_tlc("C01.Enum", en)
